@@ -8,8 +8,8 @@ VERIF = os.path.dirname(HERE)
 ALL = ["C%02d" % i for i in range(1, 21)]
 checks = []
 for pid in ALL:
-    if pid not in props.PROPS:
-        continue
+    if pid not in props.PROPS or not props.PROPS[pid]["obligations"]:
+        continue  # not built, or model/harness exist but no theorem registered yet: no claim
     P = props.PROPS[pid]
     checks.append({
         "property_id": pid,
@@ -23,7 +23,7 @@ for pid in ALL:
         "technique": P.get("technique", "Lean 4 theorems about a hand-written executable model + differential correspondence check of model vs real library"),
     })
 na = [{"property_id": pid, "reason": props.NOT_CLAIMED.get(pid, "check not built yet (see DESIGN.md §10 build order); no claim is made")}
-      for pid in ALL if pid not in props.PROPS]
+      for pid in ALL if pid not in [c["property_id"] for c in checks]]
 m = {
     "version": 1,
     "setup_cmd": "python3 tools/setup.py",
